@@ -29,6 +29,7 @@ DEFAULT_W = dict(
     visualize=0.03,
     reprovide=0.15,      # provide a key that some scope already provides, in another scope
     reinvoke=0.35,       # invoke an earlier invoker again (same or other scope)
+    web=0.04,            # a small web of feeders / consumers / decorators around one value group
 )
 
 
@@ -471,6 +472,63 @@ class Gen:
             fid = self.new_fn(ins, outs)
         self.ops.append({"op": "decorate", "scope": scope, "fn": fid, "cb": self.p("cb"), "info": r.random() < 0.7})
 
+    def op_group_web(self):
+        """feeders, a constructor consuming the group, decorators of the group on a path of scopes (some
+        depending on that constructor's result), consumers -- with random scopes, Export and order"""
+        r = self.r
+        elem = r.choice(PT[:4])
+        g = r.choice(GROUPS)
+        sl = self.slice_of(elem)
+        # a path of scopes from the root
+        path = [0]
+        kids = {}
+        for s_, p_ in enumerate(self.parents):
+            if p_ is not None:
+                kids.setdefault(p_, []).append(s_)
+        while path[-1] in kids and r.random() < 0.8:
+            path.append(r.choice(kids[path[-1]]))
+        steps = []
+        vt = r.choice(PT[3:])          # the value produced by the group-consuming constructor
+
+        def provide(scope, ins, outs, opts=None, export=False):
+            fid = self.new_fn(ins, outs)
+            o = {"name": "", "group": "", "as": [], "opts": []}
+            o.update(opts or {})
+            if export:
+                o["opts"] = list(o["opts"]) + ["export"]
+            steps.append({"op": "provide", "scope": scope, "fn": fid, "name": o["name"], "group": o["group"], "as": o["as"],
+                          "export": export, "cb": self.p("cb"), "info": False, "opts": sorted(set(o["opts"]))})
+            self.record_results(scope, outs, o, export, deps_ok=not ins)
+
+        for _ in range(r.choice([1, 2, 3])):
+            sc = r.choice(path)
+            if r.random() < 0.3:
+                provide(sc, [], [u(sl)], {"group": g + ",flatten", "opts": ["group"]})
+            else:
+                provide(sc, [], [u(elem)], {"group": g, "opts": ["group"]})
+        gin = self.st([self.in_field(), self.field("G", u(sl), {"group": g + (",soft" if r.random() < 0.2 else "")})])
+        provide(r.choice(path), [gin], [u(vt)], export=r.random() < 0.5)
+        for sc in r.sample(path, min(len(path), r.choice([1, 2]))):
+            ins = [self.st([self.in_field(), self.field("G", u(sl), {"group": g})])] if r.random() < 0.8 else []
+            if r.random() < 0.5:
+                ins.append(u(vt))
+            fid = self.new_fn(ins, [self.st([self.out_field(), self.field("G", u(sl), {"group": g})])] + ([u(0)] if r.random() < 0.3 else []))
+            steps.append({"op": "decorate", "scope": sc, "fn": fid, "cb": self.p("cb"), "info": False})
+        for _ in range(r.choice([1, 2, 3])):
+            sc = r.choice(path)
+            ins = r.choice([[gin], [u(vt)], [gin, u(vt)], [u(vt), gin]])
+            fid = self.new_fn(ins, [])
+            self.invokers.append((fid, sc))
+            steps.append({"op": "invoke", "scope": sc, "fn": fid, "info": False})
+        # registrations in random order, invokes interleaved towards the end
+        regs = [x for x in steps if x["op"] != "invoke"]
+        invs = [x for x in steps if x["op"] == "invoke"]
+        r.shuffle(regs)
+        out = regs[:]
+        for iv in invs:
+            out.insert(r.randrange(max(1, len(out) // 2), len(out) + 1), iv)
+        self.ops.extend(out)
+
     def op_invoke(self):
         r = self.r
         scope = r.randrange(0, self.nscopes)
@@ -511,6 +569,9 @@ class Gen:
             c = r.random()
             if not self.resolvable and r.random() < 0.8:
                 c = 1.0
+            if r.random() < self.w["web"]:
+                self.op_group_web()
+                continue
             if c < self.w["scope"] and self.nscopes < self.w["max_scopes"]:
                 par = r.randrange(0, self.nscopes)
                 self.ops.append({"op": "scope", "parent": par})
@@ -522,7 +583,10 @@ class Gen:
                 self.op_invoke()
             elif c < self.w["scope"] + self.w["decorate"] + self.w["invoke"] + self.w["visualize"]:
                 errs = [i for i, o in enumerate(self.ops) if o["op"] == "invoke"]
-                self.ops.append({"op": "visualize", "scope": 0, "errOf": r.choice(errs) if errs and r.random() < 0.7 else -1})
+                pick = -1
+                if errs and r.random() < 0.8:
+                    pick = errs[-1] if r.random() < 0.6 else r.choice(errs)
+                self.ops.append({"op": "visualize", "scope": 0, "errOf": pick})
                 if r.random() < 0.5:
                     self.ops.append({"op": "string", "scope": r.randrange(0, self.nscopes)})
             else:
